@@ -164,6 +164,14 @@ func cmdCheck(args []string) int {
 		if steps == 0 {
 			steps = 3000000
 		}
+		if ts.Deadline == 0 {
+			// default wall-clock budget per harness: a change to the code under test can multiply the
+			// path count; past the budget the harness is reported inconclusive, never as a pass
+			ts.Deadline = 900
+			if *tier == "thorough" {
+				ts.Deadline = 3300
+			}
+		}
 		ex := &eng.Explorer{P: prog, Entry: fn, Solver: solver, Workers: *workers, Seed: seed,
 			B: eng.Bounds{Preempt: ts.P, Timers: ts.T, MaxSteps: steps, SolverMs: 30000, DeadlineS: ts.Deadline, Params: ts.Bounds}}
 		ex.WitnessEvery = 1
